@@ -368,6 +368,7 @@ func checkC03(res *Result) {
 			res.ok("C03-R7", "streams/impl", "-", "bto/bcc are kept only in their typed properties")
 		}
 	}
+	checkHiddenClaimed(res, "C03-R7")
 	// R5
 	checkKindConsistency(res, p, "C03-R5", "wrapInCreate", 1, false)
 	checkKindConsistency(res, p, "C03-R5", "normalizeRecipients", 2, true)
